@@ -25,6 +25,8 @@ import time
 import traceback
 
 ROOT = os.path.dirname(os.path.dirname(os.path.abspath(__file__)))
+# evidence/ and violations/ normally live in /verif; VERIF_OUT redirects them (parallel evaluation of changed trees)
+OUT = os.environ.get("VERIF_OUT") or ROOT
 UNIT_TIMEOUT = int(os.environ.get("VERIF_UNIT_TIMEOUT", "900"))
 
 
@@ -150,7 +152,7 @@ def match_finding(prop, fp, findings):
 
 
 def write_evidence(prop, ev):
-    path = os.path.join(ROOT, "evidence", f"{prop}.json")
+    path = os.path.join(OUT, "evidence", f"{prop}.json")
     os.makedirs(os.path.dirname(path), exist_ok=True)
     tmp = path + ".tmp"
     with open(tmp, "w") as f:
@@ -243,7 +245,7 @@ def main(argv=None):
         v = acc.viol[key]
         f = match_finding(prop, v["fp"], findings)
         (known if f else fresh).append((v, f))
-    vdir = os.path.join(ROOT, "violations", prop)
+    vdir = os.path.join(OUT, "violations", prop)
     lines = []
     seen_ids = set()
     for v, f in known:
@@ -257,7 +259,7 @@ def main(argv=None):
         path = os.path.join(vdir, hid + ".json")
         with open(path, "w") as fh:
             json.dump({"property": prop, "fingerprint": v["fp"], "case": v["case"], "detail": v["detail"], "occurrences": v["n"]}, fh, indent=1, sort_keys=True, default=str)
-        lines.append(f"VIOLATION property={prop} replay={os.path.relpath(path, ROOT)}")
+        lines.append(f"VIOLATION property={prop} replay={os.path.relpath(path, OUT)}")
         lines.append("  " + json.dumps(v["fp"], sort_keys=True, default=str)[:300])
         lines.append("  " + str(v["detail"]).strip().replace("\n", "\n  ")[:600])
 
